@@ -11,7 +11,7 @@ const OPTS2 = JSON.stringify({ transformOn: true, optimize: true, enableObjectSl
 function requests(c) {
   const opts = c.o2 ? OPTS2 : OPTS;
   const reqs = [{ src: H.renderHistory(c.items), want: ['eval'], opts }];
-  for (const it of c.items) reqs.push({ src: H.renderAlone(it), want: ['eval'], opts });
+  c.items.forEach((it, i) => reqs.push({ src: H.renderAlone(it, i), want: ['eval'], opts })); // alone, under the index it has in the history
   return reqs;
 }
 
@@ -22,7 +22,7 @@ function judge(c, resps) {
   const bad = (x) => x.panic || x.died || x.hang || !x.eval_js;
   if (bad(r)) return { skip: true };
   const viol = [];
-  const alones = c.items.map((it, i) => (bad(resps[i + 1]) ? null : H.observe(resps[i + 1].eval_js, 1, undefined, !!c.o2)));
+  const alones = c.items.map((it, i) => (bad(resps[i + 1]) ? null : H.observe(resps[i + 1].eval_js, i + 1, i, !!c.o2)));
   // a statement that cannot even be loaded on its own (C06's business: e.g. a generated const read in its
   // temporal dead zone) stops every module it is concatenated to; that is not a dependence of lowerings
   if (alones.some((a) => a && a.load)) return { skip: true };
@@ -33,7 +33,7 @@ function judge(c, resps) {
     const alone = alones[i];
     if (!alone) return;
     // an item that cannot even be loaded/evaluated alone is C06's business; here only *dependence* on the surroundings is judged
-    const e = alone.load ? { load: alone.loadName } : alone.values[0];
+    const e = alone.load ? { load: alone.loadName } : alone.values[i];
     const o = composed.load ? { load: composed.loadName } : composed.values[i];
     obsAll.push(o);
     const d = diff(e, o);
